@@ -91,6 +91,18 @@ double a_real_norm2(double x, double y)
         __CPROVER_ensures(SAMEX(ctx->real, __CPROVER_uninterpreted_c##f##_re(__CPROVER_old(ctx->real), __CPROVER_old(ctx->imag))) && \
                           SAMEX(ctx->imag, __CPROVER_uninterpreted_c##f##_im(__CPROVER_old(ctx->real), __CPROVER_old(ctx->imag))));
 CUF(asin) CUF(acos) CUF(atan) CUF(asinh) CUF(acosh) CUF(atanh)
+CUF(sqrt) CUF(exp) CUF(log) CUF(log2) CUF(log10) CUF(proj) CUF(sin) CUF(cos) CUF(tan) CUF(sec) CUF(csc) CUF(cot)
+CUF(sinh) CUF(cosh) CUF(tanh) CUF(sech) CUF(csch) CUF(coth) CUF(asec) CUF(acsc) CUF(acot) CUF(asech) CUF(acsch) CUF(acoth)
+/* the same for the in-place functions with a second operand */
+#define CUFX(f, T, A1, A2)                                                                                                     \
+    double __CPROVER_uninterpreted_c##f##_re(double, double, double, double);                                                  \
+    double __CPROVER_uninterpreted_c##f##_im(double, double, double, double);                                                  \
+    void contract_##f##_(a_complex *ctx, T a)                                                                                  \
+        __CPROVER_requires(__CPROVER_rw_ok(ctx, sizeof(*ctx)))                                                                 \
+        __CPROVER_assigns(ctx->real, ctx->imag)                                                                                \
+        __CPROVER_ensures(SAMEX(ctx->real, __CPROVER_uninterpreted_c##f##_re(__CPROVER_old(ctx->real), __CPROVER_old(ctx->imag), A1, A2)) && \
+                          SAMEX(ctx->imag, __CPROVER_uninterpreted_c##f##_im(__CPROVER_old(ctx->real), __CPROVER_old(ctx->imag), A1, A2)));
+CUFX(pow, a_complex, a.real, a.imag) CUFX(logb, a_complex, a.real, a.imag) CUFX(pow_real, a_real, a, 0)
 #endif /* !VERIF_NATIVE */
 
 #include "src/complex.c"
@@ -112,6 +124,7 @@ void h_const_pi(void)
     ASSERT(A_REAL_PI == S_PI, "const: A_REAL_PI is pi rounded to binary64");
     ASSERT(A_REAL_PI_2 == S_PI_2, "const: A_REAL_PI_2 is pi/2 rounded to binary64");
     ASSERT(A_REAL_PI_2 * 2 == A_REAL_PI && A_REAL_PI - A_REAL_PI_2 == A_REAL_PI_2, "const: pi and pi/2 are consistent (pi - pi/2 == pi/2 exactly)");
+    ASSERT(A_REAL_PI_4 * 2 == A_REAL_PI_2 && A_REAL_C(0.5) * A_REAL_PI_2 == A_REAL_PI_4, "const: A_REAL_PI_4 is half of A_REAL_PI_2 exactly");
     ASSERT(A_REAL_SQRT1_2 == S_SQRT1_2, "const: A_REAL_SQRT1_2 is 1/sqrt(2) rounded to binary64");
     VERIF_CANARY();
 }
@@ -604,6 +617,22 @@ void h_asin_acos_twin(void)
     if (im != 0) { ASSERT(SAME(s.imag, -c.imag), "asin_/acos_: Im asin z == -Im acos z (asin z + acos z = pi/2), bit for bit"); }
     CANARY_AT(re == 1 && im == 1);
 }
+/* the same identity at one named point of each region of the |Im| formula (x < 1 and x >= 1 with a <= 1.5; a > 1.5).
+   On correct code this is implied by asin_acos_twin; it exists because the solver finds a counterexample of the symbolic
+   obligation only after > 5 min, whereas a difference at a named point is found in well under a minute. */
+#define TWIN_AT(x0, y0, txt)                                                                     \
+    do {                                                                                         \
+        Z2(s, x0, y0); Z2(c, x0, y0);                                                            \
+        a_complex_asin_(&s); a_complex_acos_(&c);                                                \
+        ASSERT(SAME(s.imag, -c.imag), "asin_/acos_: Im asin z == -Im acos z at z = " txt);       \
+    } while (0)
+void h_asin_acos_twin_points(void)
+{
+    TWIN_AT(0.5, 0.25, "0.5 + 0.25i (|Re z| < 1, a <= 1.5)");
+    TWIN_AT(1.25, 0.25, "1.25 + 0.25i (|Re z| > 1, a <= 1.5)");
+    TWIN_AT(3, 2, "3 + 2i (a > 1.5)");
+    VERIF_CANARY();
+}
 /* atan: cuts are the imaginary axis outside (-i, i); poles at +-i */
 void h_atan(void)
 {
@@ -617,6 +646,8 @@ void h_atan(void)
     if (re < 0) { ASSERT(z.real <= 0, "atan_: Re atan z <= 0 in the left half plane"); }
     if (re == 0) { ASSERT(z.real == 0, "atan_: Re atan z == 0 on the imaginary axis between -i and i"); }
     if (im == 0) { ASSERT(z.imag == 0 && z.real == a_real_atan(re), "atan_: real argument -> atan(Re) + 0i"); }
+    if (im != 0 && r < 1) { ASSERT(-A_REAL_PI_4 <= z.real && z.real <= A_REAL_PI_4, "atan_: |Re atan z| <= pi/4 inside the unit circle (|z| < 1, Im z != 0)"); }
+    if (im != 0 && re != 0 && r > 1) { ASSERT(z.real >= A_REAL_PI_4 || z.real <= -A_REAL_PI_4, "atan_: |Re atan z| >= pi/4 outside the unit circle (|z| > 1, off the axes)"); }
     if (im != 0 && a_real_abs(u) < A_REAL_C(0.1))
     {
         if (im > 0) { ASSERT(z.imag >= 0, "atan_: Im atan z >= 0 in the upper half plane (log1p branch)"); }
@@ -783,7 +814,7 @@ void h_acot(void)
         body                                   \
         VERIF_CANARY();                        \
     }
-H_WRAP(a, WRAP(sqrt); WRAP(log2); WRAP(log10); WRAP(proj);)
+H_WRAP(a, WRAP(sqrt); WRAP(exp); WRAP(log); WRAP(log2); WRAP(log10); WRAP(proj);)
 H_WRAP(b, WRAP(sin); WRAP(cos); WRAP(tan); WRAP(sec); WRAP(csc); WRAP(cot);)
 H_WRAP(c, WRAP(sinh); WRAP(cosh); WRAP(tanh); WRAP(sech); WRAP(csch); WRAP(coth);)
 H_WRAP(d, WRAP(asin); WRAP(acos); WRAP(atan);)
